@@ -6,6 +6,7 @@ import (
 	"errors"
 	"fmt"
 	"io"
+	"net"
 	"sync/atomic"
 	"time"
 
@@ -210,7 +211,14 @@ var errInjected = errors.New("injected handler failure")
 
 // handlerErrors are the values an injected handler failure may carry: a handler can fail with
 // anything, including errors that look like "clean end" sentinels elsewhere.
-var handlerErrors = []error{errInjected, io.EOF, context.Canceled, io.ErrUnexpectedEOF, context.DeadlineExceeded, errors.New("")}
+var handlerErrors = []error{errInjected, io.EOF, context.Canceled, io.ErrUnexpectedEOF, context.DeadlineExceeded, errors.New(""), tempErr{}, &net.OpError{Op: "write", Net: "tcp", Err: tempErr{}}}
+
+// tempErr is a handler failure that calls itself temporary and a timeout, as a sink's net.Error does.
+type tempErr struct{}
+
+func (tempErr) Error() string   { return "sink: i/o timeout" }
+func (tempErr) Temporary() bool { return true }
+func (tempErr) Timeout() bool   { return true }
 
 func handlerErr(f Fault) error {
 	if f.Sub < 0 {
@@ -363,7 +371,7 @@ func faultAttempt(ss *session, l *hist.Layout, spec AttemptSpec) (attempt, func(
 		}
 	case f.Kind == "mapper_err":
 		ss.mp.mu.Lock()
-		ss.mp.failAt, ss.mp.failErr = ss.mp.ncalls+f.At, fmt.Errorf("injected mapper failure")
+		ss.mp.failAt, ss.mp.failErr, ss.mp.failFull = ss.mp.ncalls+f.At, fmt.Errorf("injected mapper failure"), f.Sub > 0
 		ss.mp.mu.Unlock()
 		cleanup = func() { ss.mp.mu.Lock(); ss.mp.failAt = 0; ss.mp.mu.Unlock() }
 	case f.Kind == "mapper_cols":
